@@ -393,7 +393,7 @@ def check_saved_local(ck, proc, g, place, getter, must_guard, keep_s, loopsite, 
           key="Pipeline::process|save-late-" + tag)
 
 
-def adapters(ck):
+def adapters(ck, only_sink_rid=None):
     F = ck.facts
 
     def must_call_then_true(cls, inner, outer, rid="C01-O5"):
@@ -419,6 +419,10 @@ def adapters(ck):
                 ck.ob(rid, sitestr(fn, n), False, "%s::process also mutates the message: %s" % (cls, describe(n)), key="%s::process|extra-mutation" % cls)
         return fn
 
+    if only_sink_rid:
+        # another property claims just the sink adapter (every message that reaches a sink is sent, exactly once)
+        must_call_then_true("Sink", "send", None, rid=only_sink_rid)
+        return
     must_call_then_true("AttrHandler", "attributes", LM + "::updateAttributes")
     fm = must_call_then_true("Formatter", "format", LM + "::setFormattedMessage")
     sk = must_call_then_true("Sink", "send", None)
